@@ -1524,3 +1524,225 @@ def check_run_state(f):
                            "broken run the function returns the beginning of that earlier run" % (h, c))
                 out.append((s0, c, h, bad is None, msg))
     return out
+
+
+# ---- END2: what a lockstep scan over two ranges answers when (at least) one range is exhausted -------------------------
+END2_SPEC = {
+    # x1 / x2: the first / second range is exhausted when the loop ends
+    "equal": lambda x1, x2: x1 and x2,                          # [alg.equal]: equal lengths and all pairs matched
+    "lexicographical_compare": lambda x1, x2: x1 and not x2,    # [alg.lex.comparison]: a proper prefix is less
+}
+
+
+def check_end2(f):
+    """`equal` / `lexicographical_compare` over two full ranges: the value returned behind the lockstep loop, as a function
+    of which ranges are exhausted, is the standard's. The returned expression is evaluated for the three end states the loop
+    can leave (first exhausted, second exhausted, both). Returns [(return node, ok | None, message)]."""
+    spec = END2_SPEC.get(f["n"])
+    pairs = range_pairs(f)
+    if spec is None or f.get("body") is None or len(pairs) < 2:
+        return []
+    ends = dict(pairs)          # begin -> end
+    order = [p["n"] for p in f["params"] if p["n"] in ends]
+    if len(order) < 2:
+        return []
+    c1, c2 = order[0], order[1]
+    out = []
+    loops = [st for st in astx.walk_stmts(f["body"]) if st.get("k") in ("for", "while") and st.get("c") is not None and
+             all(any(ref_name(x) == c for x in astx.walk_expr(st["c"])) for c in (c1, c2))]
+    if not loops:
+        return []
+    all_stmts = list(astx.walk_stmts(f["body"]))
+    for lp in loops:
+        inner = set(id(t) for t in astx.walk_stmts(lp))
+        after = [t for t in all_stmts[all_stmts.index(lp) + 1:] if id(t) not in inner and t.get("k") == "return"]
+        if not after:
+            continue
+        ret = after[0]
+
+        class NM(Exception):
+            pass
+
+        def truth(e, st):
+            e = astx.strip_casts(e)
+            while e is not None and e.get("k") == "paren":
+                e = astx.strip_casts(e.get("e"))
+            if e is None:
+                raise NM()
+            if e.get("k") == "bool":
+                return bool(e["v"])
+            if e.get("k") == "un" and e["op"] == "!":
+                return not truth(e["e"], st)
+            if e.get("k") == "bin" and e["op"] in ("&&", "||"):
+                a, b = truth(e["l"], st), truth(e["r"], st)
+                return (a and b) if e["op"] == "&&" else (a or b)
+            if e.get("k") == "bin" and e["op"] in ("==", "!="):
+                l, r = ref_name(e["l"]), ref_name(e["r"])
+                for a, b in ((l, r), (r, l)):
+                    if a in (c1, c2) and b == ends[a]:
+                        v = st[0] if a == c1 else st[1]
+                        return v if e["op"] == "==" else not v
+            raise NM()
+        bad = None
+        unknown = False
+        for st in ((True, False), (False, True), (True, True)):
+            try:
+                got = truth(ret.get("e"), st)
+            except NM:
+                unknown = True
+                break
+            if got != bool(spec(*st)) and bad is None:
+                bad = (st, got)
+        if unknown:
+            out.append((ret, None, "the value returned behind the loop is not a combination of the two end tests"))
+        else:
+            out.append((ret, bad is None, "" if bad is None else "with the first range %s and the second %s the function returns %s" % (
+                "exhausted" if bad[0][0] else "not exhausted", "exhausted" if bad[0][1] else "not exhausted", str(bad[1]).lower())))
+    return out
+
+
+# ---- PTRCOUNT: a (pointer, count) buffer is indexed below count --------------------------------------------------------
+def counted_buffer_area(chk, db, prefixes, rule="PTRCOUNT", floor=0):
+    """Functions that receive raw pointers together with one element count (`char_traits::find(s, count, ch)`, `copy`, `move`,
+    `assign`, `compare`, the mem* / str*n family): every subscript of a pointer parameter by a loop counter is inside a loop
+    `for (i = 0; i < count; ++i)` -- start 0, unit step, strict bound that is the count parameter (or `i != count`). A bound
+    `i <= count` reads or writes the element one past the buffer. Other index shapes are UNKNOWN."""
+    n = 0
+    for f in db.funcs:
+        if f.get("body") is None or not any(f["file"].startswith(p) for p in prefixes):
+            continue
+        ptrs = set(p["n"] for p in f["params"] if p.get("n") and p["ty"].strip().endswith("*"))
+        counts = [p["n"] for p in f["params"] if p.get("n") and re.search(r"\bsize_t\b|size_type", p["ty"]) and "*" not in p["ty"]]
+        if not ptrs or len(counts) != 1:
+            continue
+        cnt = counts[0]
+        loops = [st for st in astx.walk_stmts(f["body"]) if st.get("k") == "for"]
+        for lp in loops:
+            ivar = None
+            if lp.get("init") is not None and lp["init"].get("k") == "decl":
+                for v in lp["init"]["vars"]:
+                    i0 = astx.strip_casts(v.get("init")) if v.get("init") is not None else None
+                    while i0 is not None and i0.get("k") in ("construct", "initlist") and len(i0.get("a", [])) == 1:
+                        i0 = astx.strip_casts(i0["a"][0])
+                    zero = i0 is not None and (astx.int_value(i0) == 0 or (i0.get("k") in ("construct", "initlist") and not i0.get("a")))
+                    ivar = (v["n"], zero)
+            if ivar is None:
+                continue
+            name, zero = ivar
+            subs = [x for x in astx.walk_stmt_exprs(lp.get("body"), into_lambdas=True) if x.get("k") == "idx"
+                    and ref_name(x["b"]) in ptrs and ref_name(x["i"]) == name]
+            subs += [x for x in astx.walk_expr(lp.get("c"), into_lambdas=False) if x.get("k") == "idx"
+                     and ref_name(x["b"]) in ptrs and ref_name(x["i"]) == name] if lp.get("c") is not None else []
+            if not subs:
+                continue
+            n += 1
+            label = "%s :: loop over `%s` at line %s" % (astx.sig(f), name, lp.get("line"))
+            chk.instance(rule)
+            c = astx.strip_casts(lp.get("c"))
+            verdict, why = None, "loop shape not recognised"
+            bound_atoms = []
+            if c is not None:
+                todo = [c]
+                while todo:
+                    y = astx.strip_casts(todo.pop())
+                    if y is not None and y.get("k") == "bin" and y["op"] == "&&":
+                        todo += [y["l"], y["r"]]
+                    elif y is not None:
+                        bound_atoms.append(y)
+            strict = loose = False
+            for y in bound_atoms:
+                if y.get("k") == "bin" and y["op"] in ("<", "!=", "<=", ">", ">="):
+                    l, r = ref_name(y["l"]), ref_name(y["r"])
+                    op = y["op"]
+                    if l == cnt and r == name:
+                        l, r, op = r, l, {"<": ">", ">": "<", "<=": ">=", ">=": "<=", "!=": "!="}[op]
+                    if l == name and r == cnt:
+                        if op in ("<", "!="):
+                            strict = True
+                        elif op == "<=":
+                            loose = True
+            inc = lp.get("inc")
+            unit = inc is not None and any(x.get("k") == "un" and x["op"] == "++" and ref_name(x["e"]) == name for x in astx.walk_expr(inc))
+            stepped_in_body = any((x.get("k") == "un" and x["op"] in ("++", "--") and ref_name(x["e"]) == name) or
+                                  (x.get("k") == "bin" and x["op"].endswith("=") and x["op"] not in ("==", "!=", "<=", ">=") and ref_name(x["l"]) == name)
+                                  for x in astx.walk_stmt_exprs(lp.get("body"), into_lambdas=True))
+            if zero and unit and not stepped_in_body and strict:
+                verdict, why = True, ""
+            elif zero and unit and not stepped_in_body and loose and not strict:
+                verdict, why = False, "the loop runs while `%s <= %s`: `%s` indexes element %s of a buffer of %s elements" % (
+                    name, cnt, astx.show(subs[0], 30), cnt, cnt)
+            chk.obligation(rule, label, verdict)
+            if verdict is False:
+                chk.violation(rule, label, "index-reaches-count", "%s: %s" % (astx.loc(f, lp), why), {"where": astx.loc(f)})
+            elif verdict is None:
+                chk.unknown_instance(rule, label, why)
+    if n < floor:
+        chk.analysis_broken("%s: only %d counted loops over pointer parameters in %s (floor %d)" % (rule, n, ", ".join(prefixes), floor))
+    return n
+
+
+# ---- ERASECNT: erase / erase_if report how many elements they removed ------------------------------------------------------
+def erase_count_area(chk, db, prefixes, rule="ERASECNT"):
+    """The free functions `erase(c, value)` / `erase_if(c, pred)` return the number of erased elements ([vector.erasure],
+    [string.erasure], [flat.set.erasure]): the returned count is the distance of exactly the range handed to `c.erase(a, b)`
+    (or the difference of c.size() before and after). A distance of another range (the kept prefix) is reported."""
+    n = 0
+    for f in db.funcs:
+        if f.get("body") is None or f.get("kind") != "function" or f["n"] not in ("erase", "erase_if"):
+            continue
+        if not any(f["file"].startswith(p) for p in prefixes) or not f["params"]:
+            continue
+        cname = f["params"][0]["n"]
+        inits = {}
+        for st in astx.walk_stmts(f["body"]):
+            if st.get("k") == "decl":
+                for v in st["vars"]:
+                    if "other" not in v and v.get("init") is not None:
+                        inits[v["n"]] = v["init"]
+        erases = [x for x in astx.all_exprs(f) if x.get("k") == "call" and astx.callee(x)[0] == "erase" and astx.callee(x)[3] == "member"
+                  and ref_name(astx.callee(x)[2]) == cname and len(x["a"]) == 2]
+        rets = [st for st in astx.walk_stmts(f["body"]) if st.get("k") == "return" and st.get("e") is not None]
+        if not erases or not rets:
+            continue        # delegates (erase -> erase_if) or another shape
+        n += 1
+        label = astx.sig(f)
+        chk.instance(rule)
+
+        def resolve(e, depth=0):
+            e = astx.strip_casts(e)
+            while e is not None and (e.get("k") == "paren" or (e.get("k") in ("construct", "initlist") and len(e.get("a", [])) == 1)):
+                e = astx.strip_casts(e.get("e") if e.get("k") == "paren" else e["a"][0])
+            if e is not None and e.get("k") == "ref" and e.get("d") == "local" and e["n"] in inits and depth < 4:
+                return resolve(inits[e["n"]], depth + 1)
+            return e
+
+        def txt(e):
+            e = resolve(e)
+            # a local iterator is compared by name, not by its initialiser (it designates the position remove_if returned)
+            return astx.show(astx.strip_casts(e), 80).replace(" ", "") if e is not None else ""
+
+        def txt_arg(e):
+            e0 = astx.strip_casts(e)
+            if e0 is not None and e0.get("k") == "ref":
+                return e0["n"]
+            return astx.show(e0, 80).replace(" ", "") if e0 is not None else ""
+        r = resolve(rets[-1]["e"])
+        verdict, why = None, "the returned count is neither a distance nor a difference of sizes"
+        if r is not None and r.get("k") == "call" and astx.callee(r)[0] == "distance" and len(r["a"]) == 2:
+            a, b = erases[0]["a"]
+            if (txt_arg(r["a"][0]), txt_arg(r["a"][1])) == (txt_arg(a), txt_arg(b)):
+                verdict, why = True, ""
+            else:
+                verdict = False
+                why = "returns distance(%s, %s) but erases [%s, %s)" % (astx.show(r["a"][0], 30), astx.show(r["a"][1], 30),
+                                                                       astx.show(a, 30), astx.show(b, 30))
+        elif r is not None and r.get("k") == "bin" and r["op"] == "-":
+            l, rr = resolve(r["l"]), resolve(r["r"])
+            if l is not None and rr is not None and all(y.get("k") == "call" and astx.callee(y)[0] in ("size", "length") for y in (l, rr)):
+                verdict, why = True, ""
+        chk.obligation(rule, label, verdict)
+        if verdict is False:
+            chk.violation(rule, label, "erased-count", "%s: %s" % (astx.loc(f, rets[-1]), why), {"where": astx.loc(f)})
+        elif verdict is None:
+            chk.unknown_instance(rule, label, why)
+    return n
